@@ -91,6 +91,35 @@ void run_once(const Plan &p, const string &dir, const Site *site, simfs::Counter
         }
         break;
       }
+      case O_BACKUP: {
+        // a backup taken while calls may fail: either it reports an error, or it is an openable database holding the session's state
+        string bd = dir + "_bak" + std::to_string(i);
+        int brc = ldb_backup(db, bd.c_str());
+        bool fault_in_op = simfs::fired().size() > fired0;
+        any_fault = any_fault || !simfs::fired().empty();
+        probe("backups_under_faults");
+        if (brc != LDB_OK) { if (!any_fault) violation("C12", "spurious_error", "%s: backup returns %s without any fault", where.c_str(), rcname(brc)); break; }
+        // read the copy with faults suspended (they belong to the source's history, not to this inspection)
+        std::vector<simfs::FaultRule> saved = simfs::rules();
+        simfs::rules().clear();
+        {
+          DbOptions bo; bo.set(p.cfg, false);
+          ldb_t *b = nullptr;
+          int orc = ldb_open(bd.c_str(), &bo.o, &b);
+          if (orc != LDB_OK) violation("C12", "backup_unusable", "%s: ldb_backup returned OK%s but the copy cannot be opened: %s", where.c_str(), fault_in_op ? " although a call failed during it" : "", rcname(orc));
+          else {
+            std::vector<std::pair<string, string>> rows;
+            int src = db_scan(b, &rows, nullptr, 1);
+            Contents got(rows.begin(), rows.end());
+            if (src != LDB_OK || got != acked) violation("C12", "backup_contents", "%s: ldb_backup returned OK but the copy holds %zu entries (scan %s), the source's acknowledged state has %zu", where.c_str(), got.size(), rcname(src), acked.size());
+            ldb_close(b);
+            sim::drain();
+          }
+        }
+        simfs::rules() = saved;
+        simfs::remove_tree(bd);
+        break;
+      }
       case O_REOPEN: {
         ldb_close(db); db = nullptr;
         sim::drain();
@@ -194,7 +223,8 @@ Plan gen_ioerr(uint64_t seed, const string &prop) {
     } else if (c < 74) { o.kind = O_GET; char kb[32]; snprintf(kb, sizeof kb, "k%03d", (int)r.below(nkeys)); o.key = kb; }
     else if (c < 83) o.kind = O_FLUSH;
     else if (c < 90) { o.kind = O_COMPACT_RANGE; o.a = (int)r.below(3); }
-    else if (c < 95) o.kind = O_ITER_NEW;
+    else if (c < 94) o.kind = O_ITER_NEW;
+    else if (c < 97) o.kind = O_BACKUP;
     else o.kind = O_REOPEN;
     p.ops.push_back(o);
   }
